@@ -1,4 +1,4 @@
-(** * VegasPdf: vegas_pdf.hpp (grid, inverse CDF, refinement).  No proofs in this file. *)
+(** * VegasPdf: vegas_pdf.hpp after the repairs (grid, inverse CDF, refinement).  No proofs in this file. *)
 From Coq Require Import ZArith NArith List.
 From HepMC Require Import Num Result.
 Import ListNotations.
@@ -98,6 +98,8 @@ Section VegasPdf.
       let delta := mul K (sub K current previous) tb2 in
       do t <- getN 26 tmp (bin' - 1);
       let new_left := sub K current (div K delta t) in
+      (* if (new_left < previous) new_left = previous;  -- the boundary stays inside the old bin *)
+      let new_left := if ltb K new_left previous then previous else new_left in
       do rest <- redistribute k' p d tmp avg bin' tb2;
       Ok (new_left :: rest)
     end.
